@@ -1,5 +1,6 @@
 import HidVerif.Proofs.Frames
 import HidVerif.Proofs.SourceLaws
+import HidVerif.Proofs.CoreMain
 /-!
 # C08 — every scope exit releases exactly what the scope allocated
 
@@ -9,6 +10,8 @@ restore `ap` / `fp` exactly (word arithmetic, all `w`, all values, no wrap assum
 the handler with the environment and continuation of the `try`.  The run-time statement for
 whole programs (footprint independent of iteration count, `ap` equal at every arrival at a loop
 head within one activation) is validated by the monitor and by minimal-stack search.
+For the verified core (programs with `int` locals, blocks, loops, calls and recursion — no arrays,
+so the array stack never moves) the whole statement is a theorem: `core_scope_exit_restores_frame`.
 -/
 namespace HidVerif.Props.C08
 open HidVerif HidVerif.PSys HidVerif.Sphinx
@@ -32,5 +35,23 @@ theorem alloc_release_restores {p : Prog} {pc pc' size ap : Nat} {m : Mem} (hw :
 theorem stop_handler_restores (c : Hid.Cfg) (sn : Hid.Snap) (hm : c.mode = some sn) :
     Hid.doDefeat c = .next { c with ctl := .exec sn.handler, env := sn.env, kont := sn.kont, mode := none } none :=
   Hid.defeat_caught c sn hm
+
+/-- **C08 on the core**: however a statement list of a core program is left — falling through,
+`return`, `return e` — after any number of loop iterations, nested blocks and (recursive) calls
+inside it, the frame pointer, the array pointer and every byte at and above the frame pointer
+are exactly what they were on entry; control is at the end of the list or at the caller's
+return address.  (`Core.Keep w m m' F`: same size, same `fp`, same `ap`, same bytes from `F` up.) -/
+theorem core_scope_exit_restores_frame {p : Prog} {ck : Bool} {B : Nat} {fa : Core.FAddr} {fns : List Core.FDecl}
+    (lib : Placed p B) (fok : Core.FnsOK p ck B fa fns) (fuel F D ra : Nat) (hra : ra < 256 ^ p.w)
+    (s : Core.S) (Γ : Core.Gam) (env : Core.Env) (pc o : Nat) (m : Mem) (env' : Core.Env) (tr : List Ev) (res : Core.Res)
+    (hpl : PlacedAt p pc (Core.cS (Core.cxOf p ck B) fa Γ pc o s))
+    (hB : pc + (Core.cS (Core.cxOf p ck B) fa Γ pc o s).length ≤ B)
+    (hinv : Core.SInv p Γ env m F D o ra) (hd : Core.Disj p.w Γ) (hwf : Core.wfS (Γ.map Prod.fst) s = true)
+    (hpk : Core.pkS p.w o s ≤ D) (ho : p.w ≤ o) (hnt : Core.noTry s = true)
+    (hex : Core.exec (256 ^ p.w) (8 * p.w) fns p.w fuel D o env s = some (env', tr, res))
+    (hres : res = .norm ∨ res = .returned ∨ ∃ v, res = .retv v) :
+    ∃ st', Reach (sphinx p) ⟨pc, m⟩ tr st' ∧ Core.Keep p.w m st'.mem F ∧ st'.mem.readLE p.w p.w = F ∧
+      (res = .norm → st'.pc = pc + (Core.cS (Core.cxOf p ck B) fa Γ pc o s).length) ∧ (res ≠ .norm → st'.pc = ra) :=
+  Core.core_frame_restored lib fok fuel F D ra hra s Γ env pc o m env' tr res hpl hB hinv hd hwf hpk ho hnt hex hres
 
 end HidVerif.Props.C08
